@@ -128,6 +128,8 @@ func main() {
 		runHist(o, rng, thorough, *replay, "drain")
 	case "mal":
 		runHist(o, rng, thorough, *replay, "mal")
+	case "frag":
+		runHist(o, rng, thorough, *replay, "frag")
 	case "valid":
 		runValid(o, rng, thorough)
 	default:
